@@ -739,11 +739,27 @@ pub fn py_plan(rng: &mut StdRng, h: usize) -> Value {
     if rng.gen_bool(0.3) {
         letters.push([" ", "\u{a0}", "#", "\t", "(", "\\", "1", "\u{130}"][rng.gen_range(0..8)]);
     }
-    let list = shaped_set(rng, &letters, 3, 4);
+    let mut list = shaped_set(rng, &letters, 3, 4);
+    let lookalike = rng.gen_bool(0.08);
+    if lookalike {
+        // literal text that only LOOKS like a \u{h..} escape once grex has escaped the backslash and counted a
+        // repeated 'u' (\\u{3}), or that spells an escape sequence out
+        let pool = ["\\uuu", "\\uu", "x\\uuuu\u{e9}", "\\u{e9}", "\\\\uuu", "\\uuu\u{1F4A9}", "\\UUU", "a\\uuuuuuuuuuuu", "\u{e9}\\uu\u{e9}\\uu"];
+        list = vec![pool[rng.gen_range(0..pool.len())].to_string()];
+        if rng.gen_bool(0.5) {
+            list.push(pool[rng.gen_range(0..pool.len())].to_string());
+        }
+        list.sort();
+        list.dedup();
+    }
     let mut ops = vec![];
     let empty = rng.gen_bool(0.03);
     ops.push(json!({"op": "new", "o": 1, "list": if empty { vec![] } else { list.clone() },
                     "ctor": if rng.gen_bool(0.5) { "classmethod" } else { "init" }}));
+    if lookalike && !empty {
+        ops.push(json!({"op": "set", "o": 1, "name": "rep", "arg": 0, "ret": 1}));
+        ops.push(json!({"op": "set", "o": 1, "name": "escape", "arg": rng.gen_range(0..=1), "ret": 1}));
+    }
     if !empty {
         let names = ["digit", "nondigit", "space", "nonspace", "word", "nonword", "rep", "icase", "capture", "verbose",
                      "nostart", "noend", "noanchors", "escape", "escape", "escape", "minrep", "minsub"];
@@ -829,7 +845,8 @@ pub fn esc_sweep_block(h: usize, first: usize, last: usize, surr: bool) -> (Valu
         if (c as u32) < 0x80 {
             continue;
         }
-        let out = lib_out(&[c.to_string()], &cfg).unwrap_or_else(|e| format!("PANIC {}", e));
+        // (no fresh thread per build here: two million thread creations dominate the sweep)
+        let out = crate::model::plain_build(&[c.to_string()], &cfg).unwrap_or_else(|e| format!("PANIC {}", e));
         let toks: Vec<Value> = crate::emit::esc_tokens(&out).iter().map(|(k, v)| json!([k, v])).collect();
         items.push(json!([c as u32, toks]));
     }
